@@ -75,12 +75,14 @@ where
     I: Iterator<Item = char>,
 {
     let mut string = String::new();
+    let mut closed = false;
     chars.next(); // consume opening quote
 
     while let Some(&c) = chars.peek() {
         match c {
             '"' => {
                 chars.next(); // consume closing quote
+                closed = true;
                 break;
             }
             '\\' => {
@@ -102,6 +104,11 @@ where
                 chars.next();
             }
         }
+    }
+
+    if !closed {
+        // Input ended inside the literal; rejected by `validate_tokens`
+        return Token::Word("<UNTERMINATED>".to_string());
     }
 
     Token::StringLiteral(string)
